@@ -39,7 +39,7 @@ theorem fileScan_body (n : Str) (L : List Str) (hL : ∀ l ∈ L, BodyLine l) (a
       · simp only [he, Bool.false_eq_true, if_false, hd, pushLine]; exact ih'
 
 theorem segLines_facts (cats : List (Str × Cols)) (Ws : List (List Str)) (h : CatsLines cats Ws) :
-    ∀ l ∈ segLines Ws, '\n' ∉ l ∧ BodyLine l := by
+    ∀ l ∈ segLines Ws, NoBreak l ∧ BodyLine l := by
   induction h with
   | nil => simp [segLines]
   | cons _ h2 _ _ ih =>
@@ -56,7 +56,7 @@ inductive BlocksLines : List Block → List (List Str) → Prop where
   | cons {b : Block} {body : List Str} {bs : List Block} {BLs : List (List Str)} :
       NameOk b.1 →
       blockText b = .ok (unlines ((sData ++ b.1) :: body)) →
-      (∀ l ∈ body, '\n' ∉ l ∧ BodyLine l) →
+      (∀ l ∈ body, NoBreak l ∧ BodyLine l) →
       blockParse (unlines ((sData ++ b.1) :: body)) = .ok (b.2.map (fun c => (some c.1, c))) →
       BlocksLines bs BLs → BlocksLines (b :: bs) (((sData ++ b.1) :: body) :: BLs)
 
@@ -118,7 +118,7 @@ theorem file_roundtrip (blocks : List Block) (hb : ∀ b ∈ blocks, GoodBlock b
   refine ⟨unlines BLs.flatten, ?_, ?_⟩
   · unfold fileSerialize
     simp only [hm, bind, Except.bind, hflat]
-  · have hnl : ∀ l ∈ BLs.flatten, '\n' ∉ l := by
+  · have hnl : ∀ l ∈ BLs.flatten, NoBreak l := by
       clear hm hflat hb hnd
       induction hBLs with
       | nil => simp
